@@ -1,6 +1,7 @@
 package rules
 
 import (
+	"go/token"
 	"go/types"
 	"strings"
 
@@ -361,6 +362,131 @@ func c06(c *core.Ctx, r *core.Report) {
 			r.Check(stateOK, core.FuncName(runner)+"#teardown-state", an.Pos(c, call), "teardown of the state handed to this call", "teardown invoked is "+an.D().Of(call.Common().Value)+", not the one of the runner's state parameter")
 			r.Check(an.Before(bodyEv, e), core.FuncName(runner)+"#teardown-after-body", an.Pos(c, call), "the teardown runs after the (recovered) body", "the iteration's cleanups run before its body")
 		}
+	})
+
+	rule(r, "C06.R8", "wherever the user's iteration function is run (the iteration runner, and any other runner next to it: a warm-up, a dry run), the cleanups registered on the handle it was given run afterwards on every path — also when the body failed", func() {
+		isUser := func(call ssa.CallInstruction, t *ssa.Function) bool {
+			if t != nil {
+				return false
+			}
+			n := an.DynCallType(call)
+			return n != nil && an.IsNamed(n, testingPkg, "RunFn")
+		}
+		isTdCall := func(in ssa.Instruction) bool {
+			call, ok := in.(ssa.CallInstruction)
+			if !ok {
+				return false
+			}
+			found := false
+			check := func(ci ssa.CallInstruction) {
+				fld, owner := an.TerminalField(ci.Common().Value)
+				if an.Callee(ci) == nil && fld != nil && an.IsNamed(owner, workersPkg, "iterationState") && fld.Name() != "t" {
+					found = true
+				}
+			}
+			check(call)
+			if t := an.Callee(call); !found && t != nil && core.InModule(t) && t.Blocks != nil {
+				// through a helper that runs it on every path
+				for _, e := range an.FlatCalls(t, 2, func(ci ssa.CallInstruction, _ *ssa.Function) bool { check(ci); return false }) {
+					_ = e
+				}
+			}
+			return found
+		}
+		n := 0
+		for _, fn := range c.AllFuncs {
+			if core.RelPkg(fn) != "internal/workers" || fn.Parent() != nil {
+				continue
+			}
+			bodies := an.FlatCalls(fn, flatDepth, isUser)
+			// judged in the outermost function that holds the call itself or the literal invoked in place around it
+			for _, e := range bodies {
+				root := e.Root()
+				if root.Parent() != fn {
+					continue
+				}
+				direct := true
+				for fr := e.Frame; fr != nil && fr.Parent != nil; fr = fr.Parent {
+					if fr.Fn != nil && fr.Fn.Parent() == nil {
+						direct = false // reached through a named helper: judged with that helper as the holder
+					}
+				}
+				if !direct {
+					continue
+				}
+				n++
+				key := core.FuncName(fn) + "#cleanups-after-body"
+				// a teardown deferred before the body covers every exit
+				deferred := false
+				an.Instrs(fn, func(in ssa.Instruction) {
+					if d, isDefer := in.(*ssa.Defer); isDefer && isTdCall(d) && an.Dominates(d, root) {
+						deferred = true
+					}
+				})
+				if deferred {
+					r.OK(key, an.Pos(c, root), "the handle's cleanups are deferred before the body runs")
+					continue
+				}
+				esc := an.EscapesWithout(root, func(in ssa.Instruction) bool {
+					if _, isDefer := in.(*ssa.Defer); isDefer {
+						return false
+					}
+					return isTdCall(in)
+				})
+				if esc != nil {
+					r.Violation(key, an.Pos(c, esc), "after the user's iteration function ran, this exit is reached without running the cleanups registered on its handle (a failing or panicking body leaves them behind)")
+				} else {
+					r.OK(key, an.Pos(c, root), "every path from the body to an exit runs the handle's cleanups")
+				}
+			}
+		}
+		r.Floor("runners of the user's iteration function", n, 1)
+	})
+
+	rule(r, "C06.R9", "once the trigger has returned, the run leaves its loop function only through the wait for the started iterations (the select on the completion signal): no early exit in between", func() {
+		fn, _ := runLoop(c)
+		isCompletion := func(v ssa.Value) bool {
+			call, ok := an.Strip(v).(*ssa.Call)
+			if !ok {
+				return false
+			}
+			t := an.Callee(call)
+			if t == nil || core.RelPkg(t) != "internal/workers" || t.Signature.Results().Len() != 1 {
+				return false
+			}
+			_, isChan := t.Signature.Results().At(0).Type().Underlying().(*types.Chan)
+			return isChan
+		}
+		n := 0
+		for _, call := range an.AllCalls(fn) {
+			if an.Callee(call) != nil {
+				continue
+			}
+			if nt := an.DynCallType(call); nt == nil || !an.IsNamed(nt, apiPkg, "WorkTriggerer") {
+				continue
+			}
+			n++
+			key := core.FuncName(fn) + "#wait-after-trigger"
+			esc := an.EscapesWithout(call, func(in ssa.Instruction) bool {
+				switch x := in.(type) {
+				case *ssa.Select:
+					for _, st := range x.States {
+						if isCompletion(st.Chan) {
+							return true
+						}
+					}
+				case *ssa.UnOp:
+					return x.Op == token.ARROW && isCompletion(x.X)
+				}
+				return false
+			})
+			if esc != nil {
+				r.Violation(key, an.Pos(c, esc), "after the trigger returned, this exit is reached without waiting for the iterations that were started: the setup teardown (deferred by the caller) runs while iterations are still in flight")
+			} else {
+				r.OK(key, an.Pos(c, call), "every path from the trigger's return to an exit waits on the completion signal")
+			}
+		}
+		r.Floor("trigger invocations in the run loop", n, 1)
 	})
 
 	rule(r, "C06.R4", "cleanups run in reverse registration order (the loop in T.teardown visits indices len-1 … 0) and each cleanup call has its own recovered frame", func() {
